@@ -381,13 +381,32 @@ class ReadInterp(Interp):
 
     def e_If(self, fr, e):
         c = unblock(e["cond"])
-        # `if X > 0 { .. } else { .. }` / `X != 0` / `!buf.is_empty()`: the else branch knows X == 0
+        # `if X > 0 { A } else { B }` / `X != 0` / `0 < X` / `X >= 1` / `!buf.is_empty()`: B knows X == 0;
+        # `if X == 0 { B } else { A }` / `X < 1` / `buf.is_empty()`: the same with the branches exchanged
         xs = None
-        if c.get("k") == "Binary" and c["op"] in ("Gt", "Ne") and lit_value(c["r"]) == 0:
-            xs = c["l"]
+        swapped = False
+        if c.get("k") == "Binary":
+            lv, rv = lit_value(c["l"]), lit_value(c["r"])
+            op = c["op"]
+            if op in ("Gt", "Ne") and rv == 0 and lv is None:
+                xs = c["l"]
+            elif op in ("Lt", "Ne") and lv == 0 and rv is None:
+                xs = c["r"]
+            elif op == "Ge" and rv == 1 and lv is None:
+                xs = c["l"]
+            elif op == "Eq" and rv == 0 and lv is None:
+                xs, swapped = c["l"], True
+            elif op == "Eq" and lv == 0 and rv is None:
+                xs, swapped = c["r"], True
+            elif op == "Lt" and rv == 1 and lv is None:
+                xs, swapped = c["l"], True
         elif c.get("k") == "Unary" and c.get("op") == "Not" and unblock(c["e"]).get("k") == "Call" and \
                 unblock(c["e"])["fn"].get("name") == "is_empty" and len(unblock(c["e"])["args"]) == 1:
             xs = {"__len_of": unblock(c["e"])["args"][0]}
+        elif c.get("k") == "Call" and c["fn"].get("name") == "is_empty" and len(c["args"]) == 1:
+            xs, swapped = {"__len_of": c["args"][0]}, True
+        if xs is not None and swapped and any(y.get("k") in ("Break", "Continue") for y in walk_all(e["then"])):
+            xs = None            # a loop's exit test (`if rest == 0 { break }`): e_Loop reads it as a comparison
         if xs is not None:
             try:
                 if "__len_of" in xs:
@@ -402,8 +421,9 @@ class ReadInterp(Interp):
                 ind = Poly.atom(("cond", ("$c%d" % self.ncond,)))
                 c0 = self.consumed
                 env0 = dict(fr.env)
-                v = self.fork(fr, ind, lambda: self.eval(fr, e["then"]),
-                              lambda: self.eval(fr, e["else"]) if e.get("else") else UNIT)
+                nz, z = (e.get("else"), e["then"]) if swapped else (e["then"], e.get("else"))
+                v = self.fork(fr, ind, lambda: self.eval(fr, nz) if nz else UNIT,
+                              lambda: self.eval(fr, z) if z else UNIT)
                 # remove the artificial atom where both branches agree modulo multiples of x (x == 0 in else)
                 self.consumed = self._merge_zero(self.consumed, ind, x)
                 for vid, val in list(fr.env.items()):
